@@ -87,8 +87,11 @@ pub fn parse_tex_adt<R: Read + Seek>(
     let texture_params = if matches!(version, AdtVersion::MoP) {
         if let Some(chunks) = discovery.get_chunks(ChunkId::MTXP) {
             if let Some(chunk_info) = chunks.first() {
-                reader.seek(SeekFrom::Start(chunk_info.offset + 8))?;
-                Some(MtxpChunk::read_le(reader)?)
+                Some(read_bounded::<MtxpChunk, _>(
+                    reader,
+                    chunk_info.offset + 8,
+                    chunk_info.size,
+                )?)
             } else {
                 None
             }
@@ -434,13 +437,13 @@ fn parse_mcnk_object_chunks<R: Read + Seek>(
             // Parse subchunk based on ID
             match subchunk_header.id {
                 ChunkId::MCRD => {
-                    reader.seek(SeekFrom::Start(current_pos))?;
-                    let mcrd = McrdChunk::read_le(reader)?;
+                    let mcrd: McrdChunk =
+                        read_bounded(reader, current_pos, subchunk_header.size)?;
                     doodad_refs = mcrd.doodad_refs;
                 }
                 ChunkId::MCRW => {
-                    reader.seek(SeekFrom::Start(current_pos))?;
-                    let mcrw = McrwChunk::read_le(reader)?;
+                    let mcrw: McrwChunk =
+                        read_bounded(reader, current_pos, subchunk_header.size)?;
                     wmo_refs = mcrw.wmo_refs;
                 }
                 _ => {
@@ -459,6 +462,24 @@ fn parse_mcnk_object_chunks<R: Read + Seek>(
     }
 
     Ok(mcnk_objects)
+}
+
+/// Parse a list-valued chunk from exactly its own `size` bytes at `data_pos`.
+///
+/// These types read "until end of stream"; on the whole-file reader they would run on
+/// through every chunk that follows.
+fn read_bounded<T, R>(reader: &mut R, data_pos: u64, size: u32) -> Result<T>
+where
+    T: for<'a> BinRead<Args<'a> = ()>,
+    R: Read + Seek,
+{
+    reader.seek(SeekFrom::Start(data_pos))?;
+    let mut chunk_data = Vec::new();
+    reader
+        .by_ref()
+        .take(u64::from(size))
+        .read_to_end(&mut chunk_data)?;
+    Ok(T::read_le(&mut Cursor::new(chunk_data))?)
 }
 
 #[cfg(test)]
